@@ -20,27 +20,34 @@ const preludeSMT = `
 (declare-fun bitor (Int Int) Int)
 (declare-fun bitnot (Int) Int)
 (declare-fun streq ((Array Int Int) Int Int (Array Int Int) Int Int) Bool)
-(define-fun isS ((a (Array Int Int)) (o Int) (j Int)) Bool (and (= (select a (+ o j)) 226) (= (select a (+ o j 1)) 128) (= (select a (+ o j 2)) 185)))
-(define-fun isE ((a (Array Int Int)) (o Int) (j Int)) Bool (and (= (select a (+ o j)) 226) (= (select a (+ o j 1)) 128) (= (select a (+ o j 2)) 186)))
-(define-fun isM ((a (Array Int Int)) (o Int) (j Int)) Bool (and (= (select a (+ o j)) 226) (= (select a (+ o j 1)) 128) (or (= (select a (+ o j 2)) 185) (= (select a (+ o j 2)) 186))))
-(declare-fun dep ((Array Int Int) Int Int) Int)
-(define-fun depStep ((a (Array Int Int)) (o Int) (j Int)) Int (ite (>= j 2) (ite (isS a o (- j 2)) 1 (ite (isE a o (- j 2)) (- 1) 0)) 0))
-(define-fun clean ((a (Array Int Int)) (o Int) (n Int)) Bool (and (not (and (>= n 1) (= (select a (+ o (- n 1))) 226))) (not (and (>= n 2) (= (select a (+ o (- n 2))) 226) (= (select a (+ o (- n 1))) 128)))))
-(define-fun WF ((a (Array Int Int)) (o Int) (n Int) (open Bool)) Bool
-  (and (forall ((j Int)) (=> (and (<= 0 j) (<= (+ j 3) n) (isS a o j)) (= (dep a o j) 0)))
-       (forall ((j Int)) (=> (and (<= 0 j) (<= (+ j 3) n) (isE a o j)) (= (dep a o j) 1)))
-       (= (dep a o n) (ite open 1 0))))
-(define-fun LS ((a (Array Int Int)) (o Int) (n Int)) Bool
-  (forall ((j Int)) (=> (and (<= 0 j) (< j n) (= (select a (+ o j)) 10)) (= (dep a o j) 0))))
-(define-fun noMarker ((a (Array Int Int)) (o Int) (lo Int) (hi Int)) Bool
-  (forall ((j Int)) (=> (and (<= lo j) (<= (+ j 3) hi)) (not (isM a o j)))))
-(define-fun noNL ((a (Array Int Int)) (o Int) (lo Int) (hi Int)) Bool
-  (forall ((j Int)) (=> (and (<= lo j) (< j hi)) (not (= (select a (+ o j)) 10)))))
-(define-fun sameBytes ((a (Array Int Int)) (ao Int) (b (Array Int Int)) (bo Int) (n Int)) Bool
-  (forall ((j Int)) (=> (and (<= 0 j) (< j n)) (= (select a (+ ao j)) (select b (+ bo j))))))
-(define-fun endsS ((a (Array Int Int)) (o Int) (n Int)) Bool (and (>= n 3) (isS a o (- n 3))))
-(define-fun endsE ((a (Array Int Int)) (o Int) (n Int)) Bool (and (>= n 3) (isE a o (- n 3))))
-(define-fun frag ((a (Array Int Int)) (o Int) (n Int)) Bool (and (WF a o n false) (LS a o n)))
+(declare-fun shift ((Array Int Int) Int) (Array Int Int))
+(assert (forall ((a (Array Int Int)) (o Int) (j Int)) (! (= (select (shift a o) j) (select a (+ o j))) :pattern ((select (shift a o) j)))))
+(define-fun isS ((a (Array Int Int)) (j Int)) Bool (and (= (select a j) 226) (= (select a (+ j 1)) 128) (= (select a (+ j 2)) 185)))
+(define-fun isE ((a (Array Int Int)) (j Int)) Bool (and (= (select a j) 226) (= (select a (+ j 1)) 128) (= (select a (+ j 2)) 186)))
+(define-fun isM ((a (Array Int Int)) (j Int)) Bool (and (= (select a j) 226) (= (select a (+ j 1)) 128) (or (= (select a (+ j 2)) 185) (= (select a (+ j 2)) 186))))
+(declare-fun dep ((Array Int Int) Int) Int)
+(define-fun depStep ((a (Array Int Int)) (j Int)) Int (ite (>= j 2) (ite (isS a (- j 2)) 1 (ite (isE a (- j 2)) (- 1) 0)) 0))
+(define-fun clean ((a (Array Int Int)) (n Int)) Bool (and (not (and (>= n 1) (= (select a (- n 1)) 226))) (not (and (>= n 2) (= (select a (- n 2)) 226) (= (select a (- n 1)) 128)))))
+(define-fun WFP ((a (Array Int Int)) (n Int)) Bool
+  (and (forall ((j Int)) (=> (and (<= 0 j) (<= (+ j 3) n) (isS a j)) (= (dep a j) 0)))
+       (forall ((j Int)) (=> (and (<= 0 j) (<= (+ j 3) n) (isE a j)) (= (dep a j) 1)))
+       (<= 0 (dep a n)) (<= (dep a n) 1)))
+(define-fun WF ((a (Array Int Int)) (n Int) (open Bool)) Bool
+  (and (WFP a n) (= (dep a n) (ite open 1 0))))
+(define-fun LS ((a (Array Int Int)) (n Int)) Bool
+  (forall ((j Int)) (=> (and (<= 0 j) (< j n) (= (select a j) 10)) (= (dep a j) 0))))
+(define-fun noMarker ((a (Array Int Int)) (lo Int) (hi Int)) Bool
+  (forall ((j Int)) (=> (and (<= 0 j) (<= lo j) (<= (+ j 3) hi)) (not (isM a j)))))
+(define-fun noNL ((a (Array Int Int)) (lo Int) (hi Int)) Bool
+  (forall ((j Int)) (=> (and (<= lo j) (< j hi)) (not (= (select a j) 10)))))
+(define-fun sameBytes ((a (Array Int Int)) (b (Array Int Int)) (n Int)) Bool
+  (forall ((j Int)) (=> (and (<= 0 j) (< j n)) (= (select a j) (select b j)))))
+(define-fun endsS ((a (Array Int Int)) (n Int)) Bool (and (>= n 3) (isS a (- n 3))))
+(define-fun endsE ((a (Array Int Int)) (n Int)) Bool (and (>= n 3) (isE a (- n 3))))
+(define-fun frag ((a (Array Int Int)) (n Int)) Bool (and (WF a n false) (LS a n)))
+; dep is constant on [lo, hi]
+(define-fun depConst ((a (Array Int Int)) (lo Int) (hi Int)) Bool
+  (forall ((j Int)) (=> (and (<= lo j) (<= j hi)) (= (dep a j) (dep a lo)))))
 `
 
 func init() {
@@ -51,6 +58,9 @@ func init() {
 	specFns["dep"] = specFn{"dep", []string{seq, "int"}, SInt}
 	specFns["clean"] = specFn{"clean", []string{seq, "int"}, SBool}
 	specFns["WF"] = specFn{"WF", []string{seq, "int", "bool"}, SBool}
+	specFns["WFP"] = specFn{"WFP", []string{seq, "int"}, SBool}
+	specFns["depConst"] = specFn{"depConst", []string{seq, "int", "int"}, SBool}
+	specFns["depStep"] = specFn{"depStep", []string{seq, "int"}, SInt}
 	specFns["LS"] = specFn{"LS", []string{seq, "int"}, SBool}
 	specFns["noMarker"] = specFn{"noMarker", []string{seq, "int", "int"}, SBool}
 	specFns["noNL"] = specFn{"noNL", []string{seq, "int", "int"}, SBool}
@@ -64,18 +74,21 @@ func init() {
 		if !e.useDep {
 			return
 		}
+		// LemmaDepCong (prelude_lemmas.go): the arrays agree below bound, so dep agrees on
+		// every view lying below bound (offset-0 view, and every shifted view).
 		j := Bound("j$", SInt)
-		// offsets: the lemma is stated for offset 0 views and for the offset in use; we instantiate for offset 0
-		// and for every slice offset being 0 in this code base (asserted where it matters).
+		o := Bound("o$", SInt)
 		e.assume(Implies(cond, Forall([]*Term{j}, Implies(And(Le(IntLit(0), j), Le(j, bound)),
-			Eq(App("dep", SInt, newA, IntLit(0), j), App("dep", SInt, oldA, IntLit(0), j))))))
+			Eq(App("dep", SInt, newA, j), App("dep", SInt, oldA, j))))))
+		e.assume(Implies(cond, Forall([]*Term{o, j}, Implies(And(Le(IntLit(0), o), Le(IntLit(0), j), Le(Add(o, j), bound)),
+			Eq(App("dep", SInt, App("shift", SArr, newA, o), j), App("dep", SInt, App("shift", SArr, oldA, o), j))))))
 	})
 }
 
 var preludeDefined = map[string]bool{
 	"nilU": true, "emptyArr": true, "godiv": true, "gorem": true, "bitand": true, "bitor": true, "bitnot": true, "streq": true,
 	"isS": true, "isE": true, "isM": true, "dep": true, "depStep": true, "clean": true, "WF": true, "LS": true,
-	"noMarker": true, "noNL": true, "sameBytes": true, "endsS": true, "endsE": true, "frag": true,
+	"WFP": true, "depConst": true, "shift": true, "noMarker": true, "noNL": true, "sameBytes": true, "endsS": true, "endsE": true, "frag": true,
 }
 
 // axiomsFor produces on-demand declarations and ground axiom instances for a query.
@@ -87,7 +100,7 @@ func (w *World) axiomsFor(terms []*Term) []string {
 	decls := map[string]sig{}
 	var collect func(t *Term)
 	collect = func(t *Term) {
-		if t.Op == "app" && !preludeDefined[t.Name] {
+		if t.Op == "app" && !preludeDefined[t.Name] && !strings.HasPrefix(t.Name, "L_") {
 			var as []Sort
 			for _, a := range t.Args {
 				as = append(as, a.S)
@@ -172,10 +185,10 @@ func (w *World) axiomsFor(terms []*Term) []string {
 			}
 			seen[k] = true
 			g := frontier[k]
-			a, o, t := g.Args[0], g.Args[1], g.Args[2]
-			prev := App("dep", SInt, a, o, Sub(t, IntLit(1)))
+			a, t := g.Args[0], g.Args[1]
+			prev := App("dep", SInt, a, Sub(t, IntLit(1)))
 			out = append(out, fmt.Sprintf("(assert (=> (<= %s 0) (= %s 0)))", t.String(), k))
-			out = append(out, fmt.Sprintf("(assert (=> (>= %s 1) (= %s (+ %s (depStep %s %s (- %s 1))))))", t.String(), k, prev.String(), a.String(), o.String(), t.String()))
+			out = append(out, fmt.Sprintf("(assert (=> (>= %s 1) (= %s (+ %s (depStep %s (- %s 1))))))", t.String(), k, prev.String(), a.String(), t.String()))
 			next[prev.String()] = prev
 		}
 		frontier = next
@@ -194,3 +207,6 @@ func dedupe(in []string) []string {
 	}
 	return out
 }
+
+
+func fullPrelude() string { return preludeSMT + lemmaPrelude() }
